@@ -45,6 +45,18 @@ const (
 )
 
 func (f *FIXUTCTimestamp) Read(bytes []byte) (err error) {
+	// time.Parse is lenient about the fraction: it takes ',' for '.' and signed digits.
+	if len(bytes) > 17 {
+		if bytes[17] != '.' {
+			return errors.New("Invalid Value for Timestamp: " + string(bytes))
+		}
+		for _, b := range bytes[18:] {
+			if !isDecimal(b) {
+				return errors.New("Invalid Value for Timestamp: " + string(bytes))
+			}
+		}
+	}
+
 	switch len(bytes) {
 	// Seconds.
 	case 17:
